@@ -232,7 +232,7 @@ func CmdCheck(args []string) int {
 			notes = append(notes, sk+": outside the modelled subset: "+n)
 		}
 		selector := sel(k)
-		for _, o := range r.Obls {
+		for oi, o := range r.Obls {
 			if !selector(o) {
 				continue
 			}
@@ -266,9 +266,16 @@ func CmdCheck(args []string) int {
 				continue
 			}
 			violations = append(violations, o.Name)
-			rp := writeReplay(*verif, prop, o, r)
+			rr := r.Refute(e, oi, smtDir)
+			rp := writeReplay(*verif, prop, o, r, rr)
 			fmt.Printf("   failed obligation %s at %s: %s\n      %s\n", o.Name, o.Pos, o.Text, o.Detail)
-			fmt.Printf("VIOLATION property=%s replay=%s no-failing-input-found\n", prop, rp)
+			if rr.Confirmed {
+				fmt.Printf("      counterexample replayed on the real code: %s\n", strings.Join(rr.Inputs, "; "))
+				fmt.Printf("VIOLATION property=%s replay=%s\n", prop, rp)
+			} else {
+				fmt.Printf("      no replayed counterexample: %s\n", rr.Reason)
+				fmt.Printf("VIOLATION property=%s replay=%s no-failing-input-found\n", prop, rp)
+			}
 			exit1(&exit)
 			samples = append(samples, map[string]interface{}{"obligation": o.Name, "verdict": o.Result, "detail": o.Detail, "at": o.Pos, "text": o.Text})
 		}
@@ -333,7 +340,7 @@ func exit1(e *int) {
 
 func round3(x float64) float64 { return float64(int(x*1000+0.5)) / 1000 }
 
-func writeReplay(verif, prop string, o *Obligation, r *FnResult) string {
+func writeReplay(verif, prop string, o *Obligation, r *FnResult, rr *ReplayResult) string {
 	dir := filepath.Join(verif, "replays", prop)
 	os.MkdirAll(dir, 0o755)
 	p := filepath.Join(dir, sanitize(o.Name)+".json")
@@ -346,8 +353,8 @@ func writeReplay(verif, prop string, o *Obligation, r *FnResult) string {
 		"text":       o.Text,
 		"verdict":    o.Result,
 		"solvers":    o.Detail,
-		"replayed":   false,
-		"note":       "no concrete failing input was produced by the solvers for this obligation (axiomatic byte-string theory yields unknown/timeout instead of a model)",
+		"replayed":   rr.Confirmed,
+		"replay":     rr,
 	}
 	b, _ := json.MarshalIndent(m, "", " ")
 	os.WriteFile(p, append(b, '\n'), 0o644)
